@@ -197,8 +197,18 @@ def minimise(scn, fails, fail_step=None, max_runs=200, max_s=90.0, extra_passes=
             cand["steps"][i]["opts"].pop(k)
             if _try(cand, fails, budget):
                 cur = cand
+        # elements of list-valued options (filters, writers, skip lists, ...)
+        for k, v in list(cur["steps"][i].get("opts", {}).items()):
+            if isinstance(v, list) and len(v) > 1:
+                j = len(v) - 1
+                while j >= 0 and budget.ok() and len(cur["steps"][i]["opts"][k]) > 1:
+                    cand = copy.deepcopy(cur)
+                    del cand["steps"][i]["opts"][k][j]
+                    if _try(cand, fails, budget):
+                        cur = cand
+                    j -= 1
         for k in ("consume", "close", "inplace"):
-            if k in st and budget.ok():
+            if k in cur["steps"][i] and budget.ok():
                 cand = copy.deepcopy(cur)
                 cand["steps"][i].pop(k)
                 if _try(cand, fails, budget):
